@@ -16,9 +16,10 @@ import botocore.exceptions as bex
 from .core import Sim, cur_actor, cur_sim
 from .seams import _real_datetime, classify_rel
 
-TRANSIENT = {"InternalError": 500, "SlowDown": 503, "RequestTimeout": 400, "ServiceUnavailable": 503,
+TRANSIENT = {"InternalError": 500, "SlowDown": 503, "RequestTimeout": 400, "ServiceUnavailable": 503, "Throttling": 400,
              "503": 503}
-PERMANENT = {"AccessDenied": 403, "NoSuchBucket": 404, "InvalidAccessKeyId": 403,
+PERMANENT = {"AccessDenied": 403, "NoSuchBucket": 404, "InvalidAccessKeyId": 403, "ExpiredToken": 400, "InvalidArgument": 400,
+             "MethodNotAllowed": 405,
              "SignatureDoesNotMatch": 403}
 
 
@@ -36,6 +37,10 @@ def make_exc(name: Optional[str], op: str = "Op") -> BaseException:
         return bex.ReadTimeoutError(endpoint_url="http://fake-s3")
     if name == "ConnectionClosedError":
         return bex.ConnectionClosedError(endpoint_url="http://fake-s3")
+    if name == "NoCredentialsError":
+        return bex.NoCredentialsError()              # raised client-side, before any request is sent
+    if name == "ParamValidationError":
+        return bex.ParamValidationError(report="injected")
     return client_error(name, op)
 
 
